@@ -42,6 +42,17 @@ order when ANY of the calls that built it passed sort_by_parameter_order=True (t
        belongs to the n-th parameter set; Session.bulk_insert_mappings(return_defaults=True), bulk_save_objects(
        return_defaults=True) and add_all() + flush(): the primary key written back to the n-th mapping / object is the
        stored key of ITS row.
+
+Parameter sets with non-uniform keys (E10).  The property quantifies over every list of parameter sets; a Core executemany
+requires like-keyed sets (the first set decides the statement), the ORM paths do not: orm/persistence.py
+_emit_insert_statements groups the list into maximal runs of like-keyed sets, executes one executemany per run and splices the
+results.  Key profile = per parameter set the subset of optional keys it carries: `d` (column with a Python-side default)
+and, where the primary key is otherwise generated (autoinc, client_uuid), `id` (given keys never collide with generated ones).
+  E10  for every key profile over n sets (all (2^|optional|)^n of them) and each ORM path of PROFILE_PATHS (Session.execute /
+       scalars with RETURNING columns / entity, flag given / composed / absent; bulk_insert_mappings, bulk_save_objects,
+       add_all + flush): every parameter set is stored exactly once with its own id / x / d (default 5 when d is omitted);
+       the returned rows / entities / written-back keys are the stored ones, and with parameter order requested the n-th
+       belongs to the n-th parameter set - whatever the number of runs (recorded as key_runs).
 """
 import itertools
 import json
@@ -610,6 +621,8 @@ def check_exec_composed(style, n, page, composition, which, warm_cache=False):
     return fails, evals, dict(nontrivial=requested and k > 1 and perms_for(k, which) != tuple(range(k)))
 
 
+PROFILE_PATHS = ["execute-cols:single-flag", "execute-cols:single-noflag", "execute-cols:flag-only-last", "execute-entity-flag", "execute-entity-noflag",
+                 "scalars-entity-flag", "bulk_insert_mappings-return_defaults", "bulk_save_objects-return_defaults", "add_all-flush"]
 ORM_PATHS = (["execute-cols:" + c for c in RETURNING_COMPOSITIONS]
              + ["execute-entity-flag", "execute-entity-flag-only-first", "execute-entity-flag-only-last", "execute-entity-noflag", "scalars-entity-flag",
                 "bulk_insert_mappings-return_defaults", "bulk_save_objects-return_defaults", "add_all-flush"])
@@ -630,14 +643,45 @@ def orm_model(style, page):
     return _ENV[key]
 
 
-def check_orm(style, n, page, path, which):
+GENERATED_KEY_STYLES = ("autoinc", "client_uuid")       # the primary key may be given or left to the default, per parameter set
+
+
+def optional_keys(style):
+    """keys a parameter set may carry or omit: d (Python-side default 5); id where the key is otherwise generated"""
+    return ["d", "id"] if style in GENERATED_KEY_STYLES else ["d"]
+
+
+def profiled_params(style, key_profile):
+    """parameter sets whose i-th member carries x (+ id when the style has no key generation) plus exactly key_profile[i]"""
+    n = len(key_profile)
+    params, explicit = _params_for(style, n)
+    for i, (p, present) in enumerate(zip(params, key_profile)):
+        assert set(present) <= set(optional_keys(style)), (style, present)
+        if "d" in present:
+            p["d"] = 50 + i
+        if "id" in present:
+            # autoincrement: given keys decrease, generated ones continue above the largest key in the table - never equal
+            p["id"] = 1000 - 10 * i if style == "autoinc" else uuid.UUID(int=1000 + i)
+    return params, explicit
+
+
+def key_runs(params):
+    """number of maximal runs of consecutive parameter sets with the same key set"""
+    return len([1 for _ in itertools.groupby(params, key=lambda p: tuple(sorted(p)))])
+
+
+def check_orm(style, n, page, path, which, key_profile=None):
     from sqlalchemy import insert, select, delete
     from sqlalchemy.orm import Session
     e, t, conn = exec_engine(style, page)
     M = orm_model(style, page)
     desc = dict(part="orm-sqlite", style=style, rows=n, page_size=page, path=path, permutation=which)
     _PERM["which"] = which
-    params, explicit = _params_for(style, n)
+    if key_profile is None:
+        params, explicit = _params_for(style, n)
+    else:
+        params, explicit = profiled_params(style, key_profile)
+        desc.update(key_profile=[list(k) for k in key_profile], key_runs=key_runs(params))
     fails = []
     evals = 1
     S = dict(sort_by_parameter_order=True)
@@ -695,6 +739,15 @@ def check_orm(style, n, page, path, which):
         return fails, 1, {}
     stored = {r[1]: r[0] for r in stored_rows}
     evals += 1
+    if key_profile is not None:
+        stored_d = {r[1]: r[2] for r in stored_rows}
+        if sorted(stored) != [p["x"] for p in params] or any(stored[p["x"]] != p["id"] for p in params if "id" in p) or any(stored_d[p["x"]] != p.get("d", 5) for p in params):
+            fails.append(dict(desc, clause="E9 stored rows == parameter sets (+ defaults), each once", expected=[[str(p["id"]) if "id" in p else None, p["x"], p.get("d", 5)] for p in params],
+                              got=[list(map(str, r)) for r in stored_rows]))
+            return fails, evals, {}
+        evals += 1
+        _order_clauses(desc, fails, "mapping / object / row", got_x, got_id, params, stored, requested)
+        return fails, evals, dict(nontrivial=requested and desc["key_runs"] > 1, key_runs=desc["key_runs"])
     if sorted(stored) != [p["x"] for p in params] or (explicit and any(stored[p["x"]] != p["id"] for p in params)):
         fails.append(dict(desc, clause="E9 stored rows == parameter sets (+ defaults), each once", expected=[[p.get("id"), p["x"]] for p in params],
                           got=[list(map(str, r)) for r in stored_rows]))
@@ -715,7 +768,7 @@ def run_case(case):
     if part in ("execute-sqlite-composed", "execute-sqlite-cache"):
         return check_exec_composed(case["style"], case["rows"], case["page_size"], case["composition"], case["permutation"], part == "execute-sqlite-cache")
     if part == "orm-sqlite":
-        return check_orm(case["style"], case["rows"], case["page_size"], case["path"], case["permutation"])
+        return check_orm(case["style"], case["rows"], case["page_size"], case["path"], case["permutation"], case.get("key_profile"))
     if part == "execute-sqlite":
         return check_exec(case["style"], case["rows"], case["page_size"], case["sort_by_parameter_order"], case["permutation"])
     if part == "execute-sqlite-ipk":
@@ -766,6 +819,16 @@ def all_cases(tier):
                         cases.append(dict(part="execute-sqlite-composed", style=style, rows=n, page_size=page, composition=composition, permutation=which))
                     for path in ORM_PATHS:
                         cases.append(dict(part="orm-sqlite", style=style, rows=n, page_size=page, path=path, permutation=which))
+        # E10: parameter sets with non-uniform keys (ORM paths only: Core executemany requires like-keyed parameter sets)
+        opt = optional_keys(style)
+        subsets = [[k for k, b in zip(opt, bits) if b] for bits in itertools.product((0, 1), repeat=len(opt))]
+        maxn = (4 if len(opt) == 1 else 3) + (1 if tier == "thorough" else 0)
+        for n in range(2, maxn + 1):
+            for profile in itertools.product(subsets, repeat=n):
+                for page in (2, 100):
+                    for which in ((1, 2) if tier != "thorough" else (0, 1, 2, 4)):
+                        for path in PROFILE_PATHS:
+                            cases.append(dict(part="orm-sqlite", style=style, rows=n, page_size=page, path=path, permutation=which, key_profile=[list(k) for k in profile]))
         for composition in COMPOSITIONS:
             if COMPOSITIONS[composition][2] != "returning":
                 for n, page in ((1, 2), (3, 2), (3, 100)):
@@ -774,7 +837,7 @@ def all_cases(tier):
 
 
 def _work(cases):
-    evals = ncases = skipped = nontriv = 0
+    evals = ncases = skipped = nontriv = profile_cases = profile_nontriv = 0
     fails = {}
     nfails = 0
     parts = {}
@@ -786,6 +849,9 @@ def _work(cases):
         f, ev, info = r
         ncases += 1
         evals += ev
+        if "key_profile" in case:
+            profile_cases += 1
+            profile_nontriv += bool(info.get("nontrivial"))
         parts[case["part"]] = parts.get(case["part"], 0) + 1
         if case["part"] == "slicing":
             if info.get("batches", 0) > 1 and not info.get("downgraded"):
@@ -794,11 +860,12 @@ def _work(cases):
             nontriv += 1
         for x in f:
             nfails += 1
-            cls = (x["part"], x.get("dialect", x.get("style")), x["clause"], x.get("sentinel"), x.get("composition", x.get("path")))
+            cls = (x["part"], x.get("dialect", x.get("style")), x["clause"], x.get("sentinel"), x.get("composition", x.get("path")), "key_profile" in x)
             lst = fails.setdefault(cls, [])
             if len(lst) < 2:
                 lst.append(x)
-    return dict(evals=evals, cases=ncases, skipped=skipped, nontrivial=nontriv, fails=[x for l in fails.values() for x in l], nfails=nfails, parts=parts)
+    return dict(evals=evals, cases=ncases, skipped=skipped, nontrivial=nontriv, fails=[x for l in fails.values() for x in l], nfails=nfails, parts=parts,
+                profile_cases=profile_cases, profile_nontrivial=profile_nontriv)
 
 
 FUNCTION_OF = {"slicing": "SQLCompiler._deliver_insertmanyvalues_batches", "reorder-stub": "DefaultDialect._deliver_insertmanyvalues_batches",
@@ -839,7 +906,7 @@ def run(run, tier, seed, args):
         if x["clause"].startswith("E9a"):
             cls = ("E9a",)          # a property of the statement object: one replay is enough, keep room for the behavioural clauses
         elif "composition" in x or "path" in x:
-            cls = (x["part"], x["clause"])
+            cls = (x["part"], x["clause"], "key_profile" in x)
         if cls in seen or len(seen) >= 10:
             continue
         seen.add(cls)
@@ -850,17 +917,21 @@ def run(run, tier, seed, args):
                  dict(part="reorder-stub", dialect="mssql:qmark", sentinel="autoinc", rows=5, page_size=3, permutation=1),
                  dict(part="execute-sqlite", style="client_uuid", rows=5, page_size=3, sort_by_parameter_order=True, permutation=1),
                  dict(part="execute-sqlite-composed", style="autoinc", rows=5, page_size=3, composition="flag-only-middle-of-3", permutation=1),
-                 dict(part="orm-sqlite", style="client_uuid", rows=5, page_size=3, path="execute-cols:flag-first", permutation=1)):
+                 dict(part="orm-sqlite", style="client_uuid", rows=5, page_size=3, path="execute-cols:flag-first", permutation=1),
+                 dict(part="orm-sqlite", style="autoinc", rows=3, page_size=2, path="execute-entity-flag", permutation=1, key_profile=[["d"], [], ["d", "id"]])):
         r = run_case(case)
         samples.append(dict(case=case, contract_failures=len(r[0]), clauses_evaluated=r[1], info={k: (list(v) if isinstance(v, tuple) else v) for k, v in r[2].items()}))
-    if ncases == 0 or parts.get("slicing", 0) == 0 or parts.get("reorder-stub", 0) == 0 or parts.get("execute-sqlite", 0) == 0:
+    if ncases == 0 or parts.get("slicing", 0) == 0 or parts.get("reorder-stub", 0) == 0 or parts.get("execute-sqlite", 0) == 0 \
+            or sum(r.get("profile_nontrivial", 0) for r in results) == 0:
         run.crashes.append("C12: a part of the scope did not run (vacuity guard): %r" % parts)
     maxrows = 10 if tier == "thorough" else 7
     run.coverage.update(
         evaluations=evals, cases=ncases, cases_per_part=parts, distinct_nontrivial=nontriv,
         rule="cases enumerated exhaustively over the stated grid, each distinct by construction; one evaluation = one contract clause on one real call; "
              "non-trivial = slicing case with more than one multi-row batch, or re-ordering case (stub, SQLite Core, SQLite ORM) whose permutation of "
-             "the first batch is not the identity while the statement asks for parameter order",
+             "the first batch is not the identity while the statement asks for parameter order; a key-profile case (E10) is non-trivial when "
+             "the parameter list has at least two runs of like-keyed sets and parameter order is asked for (counted: key_profile_cases_nontrivial)",
+        key_profile_cases=sum(r.get("profile_cases", 0) for r in results), key_profile_cases_nontrivial=sum(r.get("profile_nontrivial", 0) for r in results),
         samples=samples, exhaustive=True,
         scope="(F1) the real batch generator driven directly with INSERT..RETURNING compiled for %s x statement shapes %s x sentinel styles %s x "
               "rows 1..%d x page sizes 1..%d x insertmanyvalues_max_parameters in %s; (F2) the real dialect-level generator against a stub server returning "
@@ -868,14 +939,19 @@ def run(run, tier, seed, args):
               "sizes {1,2,3,5,100}; (F3) executemany INSERT..RETURNING and return_defaults on in-memory SQLite with a permuting execution context x styles %s x "
               "rows 1..%d x page sizes {1,2,3,5,100} x sort_by_parameter_order on/off; (E9) generative compositions %s: the returning ones against the "
               "stub server x dialects x sentinel styles {autoinc, client_pk, insert_sentinel}, all of them on SQLite x styles %s, and the ORM paths %s, "
-              "x rows %s x page sizes {2,3,100} x permutations" % (SLICE_DIALECTS, STMT_SHAPES, SENTINELS, maxrows, 11 if tier == "thorough" else 8, MAXP, maxrows,
-                                                                  EXEC_STYLES, maxrows, list(COMPOSITIONS), COMPOSED_STYLES, ORM_PATHS,
-                                                                  list(range(1, maxrows + 1)) if tier == "thorough" else [1, 2, 3, 5, 7]),
+              "x rows %s x page sizes {2,3,100} x permutations; (E10) ORM paths %s x styles %s x every key profile (per parameter set a subset of the "
+              "optional keys: d everywhere, id too for %s) over 2..%d parameter sets (2..%d where id is optional) x page sizes {2,100} x permutations %s" % (
+                  SLICE_DIALECTS, STMT_SHAPES, SENTINELS, maxrows, 11 if tier == "thorough" else 8, MAXP, maxrows,
+                  EXEC_STYLES, maxrows, list(COMPOSITIONS), COMPOSED_STYLES, ORM_PATHS,
+                  list(range(1, maxrows + 1)) if tier == "thorough" else [1, 2, 3, 5, 7],
+                  PROFILE_PATHS, COMPOSED_STYLES, list(GENERATED_KEY_STYLES), 5 if tier == "thorough" else 4, 4 if tier == "thorough" else 3,
+                  [0, 1, 2, 4] if tier == "thorough" else [1, 2]),
         contract_failures=nfails, wall_s=round(time.time() - t0, 1))
     run.assumptions += [
         "the server inserts what the statement says and generates autoincrement keys in VALUES order (what the sen_counter ORDER BY form asks for)",
         "requires len(parameters) >= 1 (the generator is only reached for an executemany)",
         "PostgreSQL / MariaDB / MSSQL only as dialect objects with a stub server; real execution on SQLite only",
+        "parameter sets with non-uniform keys only through the ORM paths (a Core executemany requires like-keyed sets: documented precondition)",
         "outside: composite and non-integer sentinels on server dialects, setinputsizes, ORM bulk insert with joined-table inheritance / "
         "several tables per parameter set, ORM bulk UPDATE, on_conflict statements in the composition part",
     ]
@@ -892,6 +968,8 @@ def replay(data):
             "orm-sqlite": ("part", "style", "rows", "page_size", "path", "permutation")}[case["part"]]
     if "composition" in case and case["part"] == "reorder-stub":
         keys += ("composition",)
+    if "key_profile" in case:
+        keys += ("key_profile",)
     c = {k: case[k] for k in keys}
     r = run_case(c)
     if r is None:
